@@ -3,7 +3,7 @@ package c04
 import (
 	"context"
 	"encoding/base64"
-	"net"
+	"io"
 
 	"mellium.im/sasl"
 	"mellium.im/xmpp"
@@ -40,7 +40,7 @@ type handshake struct {
 // attempt is a fresh peer plus the constructor call for one run.
 type attempt struct {
 	peer *hspeer.Peer
-	call func(ctx context.Context, conn net.Conn, log *hspeer.Log) (*xmpp.Session, error)
+	call func(ctx context.Context, conn io.ReadWriter, log *hspeer.Log) (*xmpp.Session, error)
 	// tlsPeer, when set, is run on its own goroutine on the far end of a pipe
 	// instead of the scripted peer (real crypto/tls cannot run on demand).
 	tlsPeer func(env *tlsEnv)
@@ -124,7 +124,7 @@ func saslBindInit(ws bool) func() *attempt {
 				return `<iq` + iqNS(ws) + ` type='result' id='` + hspeer.Esc(id) + `'><bind xmlns='` + hspeer.NSBind + `'><jid>` + client + `</jid></bind></iq>`
 			}},
 		)
-		a.call = func(ctx context.Context, conn net.Conn, log *hspeer.Log) (*xmpp.Session, error) {
+		a.call = func(ctx context.Context, conn io.ReadWriter, log *hspeer.Log) (*xmpp.Session, error) {
 			fs := hspeer.InstrumentAll(log, xmpp.SASL("", "pw", sasl.Plain), xmpp.BindResource())
 			if ws {
 				return xmpp.NewSession(ctx, serverJID, clientJID, conn, xmpp.Secure, websocket.Negotiator(cfgOf(fs)))
@@ -144,7 +144,7 @@ func saslBindRecv(ws bool) func() *attempt {
 			hspeer.Step{Want: []string{"success"}, Reply: hspeer.Say(cliHeader(ws))},
 			hspeer.Step{Want: []string{first(ws), "features"}, Reply: hspeer.Say(`<iq` + iqNS(ws) + ` type='set' id='b1'><bind xmlns='` + hspeer.NSBind + `'><resource>res</resource></bind></iq>`)},
 		)
-		a.call = func(ctx context.Context, conn net.Conn, log *hspeer.Log) (*xmpp.Session, error) {
+		a.call = func(ctx context.Context, conn io.ReadWriter, log *hspeer.Log) (*xmpp.Session, error) {
 			fs := hspeer.InstrumentAll(log, xmpp.SASLServer(perm, sasl.Plain), xmpp.BindResource())
 			if ws {
 				return xmpp.ReceiveSession(ctx, conn, xmpp.Secure, websocket.Negotiator(cfgOf(fs)))
@@ -163,7 +163,7 @@ func scripted() []*handshake {
 			a.peer = hspeer.NewPeer(
 				hspeer.Step{Want: []string{"stream"}, Reply: hspeer.Say(srvHeader(false, "s1") + hspeer.Features(false, ""))},
 			)
-			a.call = func(ctx context.Context, conn net.Conn, log *hspeer.Log) (*xmpp.Session, error) {
+			a.call = func(ctx context.Context, conn io.ReadWriter, log *hspeer.Log) (*xmpp.Session, error) {
 				return xmpp.NewClientSession(ctx, clientJID, conn)
 			}
 			return a
@@ -174,7 +174,7 @@ func scripted() []*handshake {
 				hspeer.Step{Want: nil, Reply: hspeer.Say(cliHeader(false))},
 				hspeer.Step{Want: []string{"stream", "features"}, Reply: hspeer.Say(hspeer.El(nsM, "select"))},
 			)
-			a.call = func(ctx context.Context, conn net.Conn, log *hspeer.Log) (*xmpp.Session, error) {
+			a.call = func(ctx context.Context, conn io.ReadWriter, log *hspeer.Log) (*xmpp.Session, error) {
 				fs := hspeer.InstrumentAll(log, featM(false, 0))
 				return xmpp.ReceiveSession(ctx, conn, 0, xmpp.NewNegotiator(cfgOf(fs)))
 			}
@@ -187,7 +187,7 @@ func scripted() []*handshake {
 			a.peer = hspeer.NewPeer(
 				hspeer.Step{Want: []string{"open"}, Reply: hspeer.Say(srvHeader(true, "s1") + hspeer.Features(true, ""))},
 			)
-			a.call = func(ctx context.Context, conn net.Conn, log *hspeer.Log) (*xmpp.Session, error) {
+			a.call = func(ctx context.Context, conn io.ReadWriter, log *hspeer.Log) (*xmpp.Session, error) {
 				return websocket.NewSession(ctx, clientJID, conn)
 			}
 			return a
@@ -198,7 +198,7 @@ func scripted() []*handshake {
 				hspeer.Step{Want: nil, Reply: hspeer.Say(cliHeader(true))},
 				hspeer.Step{Want: []string{"open", "features"}, Reply: hspeer.Say(hspeer.El(nsM, "select"))},
 			)
-			a.call = func(ctx context.Context, conn net.Conn, log *hspeer.Log) (*xmpp.Session, error) {
+			a.call = func(ctx context.Context, conn io.ReadWriter, log *hspeer.Log) (*xmpp.Session, error) {
 				fs := hspeer.InstrumentAll(log, featM(false, 0))
 				return websocket.ReceiveSession(ctx, conn, fs...)
 			}
@@ -212,7 +212,7 @@ func scripted() []*handshake {
 				hspeer.Step{Want: []string{"stream"}, Reply: hspeer.Say(`<?xml version='1.0'?><stream:stream xmlns:stream='` + hspeer.NSStream + `' xmlns='` + hspeer.NSComponent + `' from='` + comp + `' id='c1'>`)},
 				hspeer.Step{Want: []string{"handshake"}, Reply: hspeer.Say(`<handshake></handshake>`)},
 			)
-			a.call = func(ctx context.Context, conn net.Conn, log *hspeer.Log) (*xmpp.Session, error) {
+			a.call = func(ctx context.Context, conn io.ReadWriter, log *hspeer.Log) (*xmpp.Session, error) {
 				return component.NewSession(ctx, compJID, []byte("secret"), conn)
 			}
 			return a
@@ -224,7 +224,7 @@ func scripted() []*handshake {
 				hspeer.Step{Want: []string{"select"}, Reply: hspeer.Say(hspeer.El(nsV, "fail"))},
 				hspeer.Step{Want: []string{"select"}, Reply: hspeer.Say(hspeer.El(nsM, "ok"))},
 			)
-			a.call = func(ctx context.Context, conn net.Conn, log *hspeer.Log) (*xmpp.Session, error) {
+			a.call = func(ctx context.Context, conn io.ReadWriter, log *hspeer.Log) (*xmpp.Session, error) {
 				fs := hspeer.InstrumentAll(log, featV(false), featM(false, 0))
 				return xmpp.NewSession(ctx, serverJID, clientJID, conn, 0, xmpp.NewNegotiator(cfgOf(fs)))
 			}
@@ -237,7 +237,7 @@ func scripted() []*handshake {
 				hspeer.Step{Want: []string{"stream", "features"}, Reply: hspeer.Say(hspeer.El(nsV, "select"))},
 				hspeer.Step{Want: []string{"fail"}, Reply: hspeer.Say(hspeer.El(nsM, "select"))},
 			)
-			a.call = func(ctx context.Context, conn net.Conn, log *hspeer.Log) (*xmpp.Session, error) {
+			a.call = func(ctx context.Context, conn io.ReadWriter, log *hspeer.Log) (*xmpp.Session, error) {
 				fs := hspeer.InstrumentAll(log, featV(true), featM(false, 0))
 				return xmpp.ReceiveSession(ctx, conn, 0, xmpp.NewNegotiator(cfgOf(fs)))
 			}
@@ -249,7 +249,7 @@ func scripted() []*handshake {
 				hspeer.Step{Want: []string{"stream"}, Reply: hspeer.Say(srvHeader(false, "s1") + hspeer.Features(false, hspeer.Advert(nsM, "m", true)))},
 				hspeer.Step{Want: []string{"select"}, Reply: hspeer.Say(hspeer.El(nsM, "fail"))},
 			)
-			a.call = func(ctx context.Context, conn net.Conn, log *hspeer.Log) (*xmpp.Session, error) {
+			a.call = func(ctx context.Context, conn io.ReadWriter, log *hspeer.Log) (*xmpp.Session, error) {
 				fs := hspeer.InstrumentAll(log, featM(false, xmpp.Ready|xmpp.Authn))
 				return xmpp.NewSession(ctx, serverJID, clientJID, conn, 0, xmpp.NewNegotiator(cfgOf(fs)))
 			}
@@ -261,7 +261,7 @@ func scripted() []*handshake {
 				hspeer.Step{Want: nil, Reply: hspeer.Say(cliHeader(false))},
 				hspeer.Step{Want: []string{"stream", "features"}, Reply: hspeer.Say(hspeer.El(nsM, "select"))},
 			)
-			a.call = func(ctx context.Context, conn net.Conn, log *hspeer.Log) (*xmpp.Session, error) {
+			a.call = func(ctx context.Context, conn io.ReadWriter, log *hspeer.Log) (*xmpp.Session, error) {
 				fs := hspeer.InstrumentAll(log, featM(true, xmpp.Ready|xmpp.Authn))
 				return xmpp.ReceiveSession(ctx, conn, 0, xmpp.NewNegotiator(cfgOf(fs)))
 			}
